@@ -457,7 +457,12 @@ func (e *C16) runScenario(ctx *core.Ctx, spec *v1.ExtendedDaemonSetSpec) {
 		for _, rs := range kit.RSs(s) {
 			rec("ers", rs.Name)
 		}
-		// minimal cooperative kubelet: bind + start + ready, finalise terminating
+		// minimal cooperative kubelet: bind + start + ready, finalise terminating. One round in three it is late: the
+		// pods created in this round stay as the API server stored them (Pending, no container status, no start
+		// time) and the next round's syncs see them like that
+		if r.Intn(3) == 0 {
+			return
+		}
 		for _, p := range kit.Pods(s) {
 			if p.DeletionTimestamp != nil {
 				s.Remove(simapi.KindPod, p.Namespace, p.Name)
